@@ -153,7 +153,7 @@ Proof. exact advance_past_end. Qed.
 Print Assumptions C08_advance_past_end.
 
 (* ---------- scorch readers and the unadorned replacements (Cursor/MachProofsTfr.v) ---------- *)
-From Verif Require Import Cursor.MachProofsTfr.
+From Verif Require Import Cursor.MachReaders Cursor.MachProofsTfr.
 
 Theorem C08_docid_cursor : forall segs offs prog, length offs = length segs ->
   did_run (did_init segs offs) prog = Some (run_spec (tfr_global segs offs) prog).
@@ -196,3 +196,13 @@ Theorem C08_tfr_cursor : forall unadorned segs offs prog,
   tfr_run (tfr_init unadorned segs offs) prog = Some (run_spec (tfr_global segs offs) prog).
 Proof. exact tfr_cursor. Qed.
 Print Assumptions C08_tfr_cursor.
+
+(* ... and the same with the hypotheses in the boolean form that the correspondence check
+   evaluates on every real snapshot (MachCorr.snapshot_ok) *)
+From Verif Require Import Cursor.MachCorr.
+Theorem C08_tfr_cursor_checked : forall unadorned segs offs prog,
+  snapshot_ok segs offs = true -> nonneg_targets prog = true ->
+  forward (tfr_global segs offs) prog = true ->
+  tfr_run (tfr_init unadorned segs offs) prog = Some (run_spec (tfr_global segs offs) prog).
+Proof. exact tfr_cursor_checked. Qed.
+Print Assumptions C08_tfr_cursor_checked.
